@@ -148,6 +148,17 @@ def gen_cases(ctx):
         cases.append(dict(c07.gen_tree_case(rng, 1000 + i), kind="pkgtree"))
     for i in range(24 if ctx.tier == "quick" else 200):
         cases.append(gen_recleak_case(rng, i))
+    # fixed witnesses: recursive package nested under a recursive package, sibling whose name merely extends it, with and without root-level data
+    for j, (root_td, nested, listed) in enumerate(((None, False, False), ({"kR": "vR"}, True, False), ({"kR": "vR"}, False, True), (None, True, True))):
+        def td(tag):
+            d = {"k" + tag: "v" + tag}
+            if nested:
+                d["nest"] = {"from" + tag: tag, "deep": {"d" + tag: 1}}
+            return d
+        if root_td and nested:
+            root_td = dict(root_td, nest={"fromR": "R", "deep": {"dR": 1}})
+        pk = {"a": {"recursive": True, "td": td("A"), "listed": False}, "a/sub": {"recursive": True, "td": td("S"), "listed": listed}, "b": {"recursive": False, "td": None, "listed": listed}}
+        cases.append({"kind": "recleak", "i": 5000 + j, "root_td": root_td, "pk": pk, "order": ["a/sub", "a", "b"] if j % 2 else ["b", "a", "a/sub"]})
     return cases
 
 
